@@ -7,7 +7,7 @@ INFO = {
             "01.., ramp, one ff at each position <8, trailing nonzero), context-supplied keys, x data = all strings over S6 up to "
             "length 4 (3 for long keys) + ramps; ProcessRotateLeft: every amount -64..64 (+over-wide extras) x every group 1..8 x "
             "0..2 groups of pattern bytes and every non-multiple length; ByteSwapped/BitsSwapped over sizes 1..16, integers, "
-            "structs, and the unsized (streaming) path; Compressed x 4 codecs x levels x data. Each case: build == T(inner bytes), "
+            "structs, and the unsized (streaming) path; every transform family again placed behind 0..8 header bytes (Struct member, stream entry points at an offset, consecutive Prefixed regions, Array of FixedSized regions); Compressed x 4 codecs x levels x data. Each case: build == T(inner bytes), "
             "parse sees T^-1(stream), parse(build(v)) == v. non-trivial = non-empty data with a transform that is not the identity",
     "bounds": {"quick": {"data_len": 4}, "thorough": {"data_len": 5}},
     "trusted_base": ["xor/rotate/reverse written with big integers in this module", "zlib, gzip, bz2, lzma stdlib modules define the codecs"],
@@ -62,6 +62,8 @@ def units(tier):
         for a0 in (-64, -32, 0, 33):
             us.append({"kind": "rot", "group": g, "from": a0, "to": min(a0 + 32, 65) if a0 < 33 else 65})
     us.append({"kind": "rotextra"})
+    for name in ("xor/90", "xor/0102", "xor/010203", "xor/800000007f", "xor/0102030405060708", "rot/3/1", "rot/8/2", "rot/5/2", "rot/12/3", "rot/-3/1", "bitsswapped"):
+        us.append({"kind": "placed", "name": name})
     us.append({"kind": "swap"})
     for enc in ("zlib", "gzip", "bzip2", "lzma"):
         us.append({"kind": "codec", "encoding": enc})
@@ -157,10 +159,88 @@ def rot_case(amount, group, data, r=None, via_ctx=False):
     return check_transform(mk, fp, fb, data, case, "rot/" + branch, r, ctx)
 
 
+def transforms_placed():
+    """name -> (make construct over GreedyBytes, what the inner construct sees for stream bytes x, what is emitted for v)"""
+    import construct as C
+    out = {}
+    for key in (0x5a, b"\x01\x02", b"\x01\x02\x03", b"\x80\x00\x00\x00\x7f", bytes(range(1, 9))):
+        out["xor/%s" % (key if isinstance(key, int) else key.hex())] = (lambda key=key: C.ProcessXor(key, C.GreedyBytes), lambda x, key=key: ref_xor(x, key), lambda v, key=key: ref_xor(v, key), 1)
+    for a, g in ((3, 1), (8, 2), (5, 2), (12, 3), (-3, 1)):
+        out["rot/%d/%d" % (a, g)] = (lambda a=a, g=g: C.ProcessRotateLeft(a, g, C.GreedyBytes), lambda x, a=a, g=g: ref_rotl(x, a, g), lambda v, a=a, g=g: ref_rotl(v, -a, g), g)
+    out["bitsswapped"] = (lambda: C.BitsSwapped(C.GreedyBytes), ref_bitrev, ref_bitrev, 1)
+    return out
+
+
+def placed_case(name, data, hdr, r=None):
+    """the transform does not depend on where in the stream its region starts: after a header of hdr bytes in a Struct,
+    from parse_stream/build_stream at offset hdr, in two consecutive Prefixed regions and in an Array of FixedSized regions"""
+    import construct as C
+    mk, fp, fb, unit = transforms_placed()[name]
+    out = []
+    case = {"t": "placed", "name": name, "data": data, "hdr": hdr}
+    def bad(kind, detail):
+        out.append({"sig": "C15/placed/%s/%s" % (name.split("/")[0], kind), "case": case, "detail": "%s with %d bytes before it, data %s: %s" % (name, hdr, data.hex(), detail)})
+    if len(data) % unit:
+        return out
+    head = bytes((0xa0 + i) & 0xff for i in range(hdr))
+    inner, emitted = fp(data), fb(data)
+    # Struct member after a header
+    d = C.Struct("h" / C.Bytes(hdr), "v" / mk())
+    got = tryex(lambda: bytes(d.parse(head + data).v))
+    if got != ("ok", inner):
+        bad("struct-parse", "inner sees %r, definition %r" % (got, inner))
+    got = tryex(lambda: d.build(dict(h=head, v=data)))
+    if got != ("ok", head + emitted):
+        bad("struct-build", "emitted %r, definition %r" % (got, head + emitted))
+    # stream entry points at an offset
+    def ps():
+        st = io.BytesIO(head + data); st.seek(hdr)
+        return bytes(mk().parse_stream(st))
+    got = tryex(ps)
+    if got != ("ok", inner):
+        bad("parse_stream-at-offset", "inner sees %r, definition %r" % (got, inner))
+    def bs():
+        st = io.BytesIO(); st.write(head)
+        mk().build_stream(data, st)
+        return st.getvalue()
+    got = tryex(bs)
+    if got != ("ok", head + emitted):
+        bad("build_stream-at-offset", "emitted %r, definition %r" % (got, head + emitted))
+    # consecutive regions
+    if len(data) < 256:
+        d = C.Struct("h" / C.Bytes(hdr), "p" / C.Prefixed(C.Byte, mk()), "q" / C.Prefixed(C.Byte, mk()))
+        msg = head + bytes([len(data)]) + data + bytes([len(data)]) + data
+        got = tryex(lambda: [bytes(x) for x in (lambda o: (o.p, o.q))(d.parse(msg))])
+        if got != ("ok", [inner, inner]):
+            bad("prefixed-parse", "inner constructs see %r, definition %r twice" % (got, inner))
+        got = tryex(lambda: d.build(dict(h=head, p=data, q=data)))
+        want = head + bytes([len(data)]) + emitted + bytes([len(data)]) + emitted
+        if got != ("ok", want):
+            bad("prefixed-build", "emitted %r, definition %r" % (got, want))
+    if data:
+        d = C.Struct("h" / C.Bytes(hdr), "a" / C.Array(3, C.FixedSized(len(data), mk())))
+        got = tryex(lambda: [bytes(x) for x in d.parse(head + data * 3).a])
+        if got != ("ok", [inner] * 3):
+            bad("array-parse", "elements see %r, definition %r each" % (got, inner))
+    if r is not None:
+        r.states += 1
+        r.case(nontrivial=bool(data), outcome="placed", transitions=7, validated=7)
+        for v in out:
+            r.violation(v["sig"], v["case"], v["detail"])
+    return out
+
+
 def run_unit(unit, tier):
     r = UnitResult()
     k = unit["kind"]
     L = INFO["bounds"][tier]["data_len"]
+    if k == "placed":
+        datas = sigma(min(L, 4) - 1) + ramps(12)
+        for hdr in range(0, 9):
+            for d in datas:
+                placed_case(unit["name"], d, hdr, r)
+        r.sample({"placed": unit["name"], "header_lengths": [0, 8], "data_strings": len(datas)})
+        return r
     if k == "xor1":
         datas = sigma(L) + ramps()
         for key in range(unit["from"], unit["to"]):
@@ -355,6 +435,8 @@ def replay(case):
     t = case["t"]
     if t == "xor":
         return xor_case(case["key"], case["data"], None, case.get("ctx", False))
+    if t == "placed":
+        return placed_case(case["name"], case["data"], case["hdr"])
     if t == "rot":
         return rot_case(case["amount"], case["group"], case["data"], None, case.get("ctx", False))
     r = UnitResult()
